@@ -340,6 +340,8 @@ class Program:
                     return getattr(recv, fn.attr)(*args)
                 raise CannotFold(f"method on non-str: {unparse(node)}")
             cname = unparse(fn)
+            if cname == "len" and len(node.args) == 1:
+                return len(f(node.args[0]))
             if cname == "re.escape" and len(node.args) == 1:
                 import re as _re
                 return _re.escape(f(node.args[0]))
@@ -365,6 +367,19 @@ class Program:
                 if isinstance(arg, dict):
                     arg = list(arg.keys())
                 return {"list": list, "tuple": tuple, "set": set, "frozenset": frozenset, "sorted": sorted}[cname](arg)
+            # a module-level pure helper: `def h(a, b): [docstring]; [x = <expr>]*; return <expr>`
+            if isinstance(fn, ast.Name) and fn.id in mod.functions and not node.keywords:
+                h = mod.functions[fn.id]
+                body = [st for st in h.node.body if not (isinstance(st, ast.Expr) and isinstance(st.value, ast.Constant))]
+                if body and isinstance(body[-1], ast.Return) and body[-1].value is not None and len(node.args) == len(h.params) \
+                        and all(isinstance(st, (ast.Assign, ast.AnnAssign)) for st in body[:-1]):
+                    env2 = dict(zip(h.params, [f(a) for a in node.args]))
+                    for st in body[:-1]:
+                        tgt = st.targets[0] if isinstance(st, ast.Assign) else st.target
+                        if not isinstance(tgt, ast.Name) or st.value is None:
+                            raise CannotFold(f"helper not foldable: {fn.id}")
+                        env2[tgt.id] = self.fold(mod, st.value, env2)
+                    return self.fold(mod, body[-1].value, env2)
             raise CannotFold(f"call not foldable: {unparse(node)}")
         if isinstance(node, (ast.ListComp, ast.SetComp, ast.GeneratorExp)) and len(node.generators) == 1:
             gen = node.generators[0]
